@@ -1467,7 +1467,7 @@ def consHead (cur : List γ) : List (List γ) → List (List γ)
   | h :: t => (cur ++ h) :: t
   | [] => [cur]
 
-theorem stripPrefix?_eq [BEq γ] (pat s : List γ) :
+theorem stripPrefix_eq [BEq γ] (pat s : List γ) :
     stripPrefix? pat s = if pat.isPrefixOf s then some (s.drop pat.length) else none := by
   induction pat generalizing s with
   | nil => simp [stripPrefix?]
@@ -1498,7 +1498,7 @@ theorem splitGo_eq [BEq γ] (pat : List γ) (fuel : Nat) (cur s : List γ) :
     cases s with
     | nil => simp [splitGo, SeqSpec.splitPat, consHead]
     | cons c cs =>
-      simp only [splitGo, SeqSpec.splitPat, stripPrefix?_eq]
+      simp only [splitGo, SeqSpec.splitPat, stripPrefix_eq]
       by_cases hp : pat.isPrefixOf (c :: cs) = true
       · simp only [hp, if_true, ih, consHead, List.append_nil]
         cases h : SeqSpec.splitPat pat fuel (List.drop pat.length (c :: cs)) with
@@ -1740,14 +1740,9 @@ theorem permutations_nil : SeqSpec.permutations ([] : List α) = [[]] := rfl
 /-! ## the combinatorial streams of streams.rs: Impl iterator = Spec enumeration
 The iterator models (`powerIncr`, `subseqIncr`, `combIncr`, `permIncr` driven by `forceGo`) are
 executable and compared with the Spec enumerations (and with the real interpreter) on every run of
-the check; the equations below are NOT proved here and are kept as statements. -/
+the check.  `cartesianPower_eq`, `subsequences_eq` and `combinations_eq` are proved below; the
+equation for `permutations` is NOT proved here and is kept as a statement. -/
 
-def cartesianPower_statement : Prop :=
-  ∀ (α : Type) (xs : List α) (n : Nat), cartesianPower xs n = SeqSpec.power xs n
-def subsequences_statement : Prop :=
-  ∀ (α : Type) (xs : List α), subsequences xs = SeqSpec.subsequences xs
-def combinations_statement : Prop :=
-  ∀ (α : Type) (xs : List α) (k : Nat), combinations xs k = SeqSpec.combinations xs k
 def permutations_statement : Prop :=
   ∀ (α : Type) (xs : List α), permutations xs = SeqSpec.permutations xs
 
@@ -1838,5 +1833,590 @@ theorem call_group_n (s : Val) (n : Int) :
     funext xs
     exact grouped_eq xs m false (by omega)
 
+
+/-! ## stream iterators: a generic "the states form a chain" argument -/
+
+/-- the states `L` are linked by `next`, and the last one's successor is `e` -/
+def Links (next : σ → Option σ) : List σ → Option σ → Prop
+  | [], _ => False
+  | [s], e => next s = e
+  | s :: t :: r, e => next s = some t ∧ Links next (t :: r) e
+
+theorem Links_append (next : σ → Option σ) (L1 L2 : List σ) (h2 : σ) (t2 : List σ) (e : Option σ)
+    (hL2 : L2 = h2 :: t2) (a : Links next L1 (some h2)) (b : Links next L2 e) : Links next (L1 ++ L2) e := by
+  subst hL2
+  induction L1 with
+  | nil => cases a
+  | cons s r ih =>
+    cases r with
+    | nil => exact ⟨a, b⟩
+    | cons t r' => exact ⟨a.1, ih a.2⟩
+
+/-- `force` over a chain of states that ends (`none`) collects the items of exactly those states -/
+theorem forceGo_links (step : σ → β × Option σ) (L : List σ) (s : σ) (r : List σ) (hL : L = s :: r)
+    (h : Links (fun s => (step s).2) L none) (fuel : Nat) (hf : L.length ≤ fuel) (acc : List β) :
+    forceGo step fuel (some s) acc = acc ++ L.map (fun s => (step s).1) := by
+  subst hL
+  induction r generalizing s fuel acc with
+  | nil =>
+    cases fuel with
+    | zero => simp at hf
+    | succ fuel =>
+      have h' : (step s).2 = none := h
+      simp only [forceGo, h']
+      cases fuel <;> simp [forceGo]
+  | cons t r ih =>
+    cases fuel with
+    | zero => simp at hf
+    | succ fuel =>
+      have h1 : (step s).2 = some t := h.1
+      simp only [forceGo, h1]
+      rw [ih t fuel _ h.2 (by simp at hf ⊢; omega)]
+      simp
+
+/-! ### subsequences -/
+
+theorem subseq_go_snoc (l : List Bool) (b : Bool) :
+    subseqIncr.go (l ++ [b]) = match subseqIncr.go l with
+      | some w => some (w ++ [b])
+      | none => if !b then some (List.replicate l.length false ++ [true]) else none := by
+  induction l with
+  | nil => cases b <;> simp [subseqIncr.go]
+  | cons x l ih =>
+    simp only [List.cons_append, subseqIncr.go, ih]
+    cases x with
+    | false => simp
+    | true =>
+      simp only [Bool.not_true, Bool.false_eq_true, if_false]
+      cases subseqIncr.go l with
+      | some w => simp
+      | none => cases b <;> simp [List.replicate_succ]
+
+/-- `next` seen from the front: bump the tail if it can be bumped, else flip the head -/
+def consNext (b : Bool) (n : Nat) (e : Option (List Bool)) : Option (List Bool) :=
+  match e with
+  | some v' => some (b :: v')
+  | none => if !b then some (true :: List.replicate n false) else none
+
+theorem subseqIncr_cons (b : Bool) (v : List Bool) :
+    subseqIncr (b :: v) = consNext b v.length (subseqIncr v) := by
+  simp only [subseqIncr, List.reverse_cons, subseq_go_snoc, consNext]
+  cases subseqIncr.go v.reverse with
+  | some w => simp
+  | none => cases b <;> simp
+
+def flagsAll : Nat → List (List Bool)
+  | 0 => [[]]
+  | n + 1 => (flagsAll n).map (false :: ·) ++ (flagsAll n).map (true :: ·)
+
+theorem flagsAll_length_mem (n : Nat) : ∀ v ∈ flagsAll n, v.length = n := by
+  induction n with
+  | zero => simp [flagsAll]
+  | succ n ih =>
+    intro v hv
+    simp only [flagsAll, List.mem_append, List.mem_map] at hv
+    rcases hv with ⟨w, hw, rfl⟩ | ⟨w, hw, rfl⟩ <;> simp [ih w hw]
+
+theorem flagsAll_head (n : Nat) : ∃ t, flagsAll n = List.replicate n false :: t := by
+  induction n with
+  | zero => exact ⟨[], rfl⟩
+  | succ n ih =>
+    obtain ⟨t, ht⟩ := ih
+    exact ⟨t.map (false :: ·) ++ (flagsAll n).map (true :: ·), by simp [flagsAll, ht, List.replicate_succ]⟩
+
+theorem flagsAll_length (n : Nat) : (flagsAll n).length = 2 ^ n := by
+  induction n with
+  | zero => rfl
+  | succ n ih => simp [flagsAll, ih, Nat.pow_succ]; omega
+
+theorem links_map_cons (b : Bool) (n : Nat) (A : List (List Bool)) (e : Option (List Bool))
+    (hlen : ∀ v ∈ A, v.length = n) (h : Links subseqIncr A e) :
+    Links subseqIncr (A.map (b :: ·)) (consNext b n e) := by
+  induction A with
+  | nil => cases h
+  | cons s r ih =>
+    cases r with
+    | nil =>
+      simp only [List.map_cons, List.map_nil, Links] at h ⊢
+      rw [subseqIncr_cons, hlen s (by simp), h]
+    | cons t r' =>
+      obtain ⟨h1, h2⟩ := h
+      refine ⟨?_, ih (fun v hv => hlen v (List.mem_cons_of_mem _ hv)) h2⟩
+      rw [subseqIncr_cons, h1]
+      rfl
+
+theorem flagsAll_links (n : Nat) : Links subseqIncr (flagsAll n) none := by
+  induction n with
+  | zero => simp [flagsAll, Links, subseqIncr, subseqIncr.go]
+  | succ n ih =>
+    obtain ⟨t, ht⟩ := flagsAll_head n
+    have h1 := links_map_cons false n (flagsAll n) none (flagsAll_length_mem n) ih
+    have h2 := links_map_cons true n (flagsAll n) none (flagsAll_length_mem n) ih
+    simp only [consNext, Bool.not_false, if_true, Bool.not_true, Bool.false_eq_true, if_false] at h1 h2
+    exact Links_append subseqIncr _ _ (true :: List.replicate n false) (t.map (true :: ·)) none
+      (by rw [ht]; rfl) h1 h2
+
+theorem pickFlags_flagsAll (xs : List α) :
+    (flagsAll xs.length).map (fun v => pickFlags v xs) = SeqSpec.subsequences xs := by
+  induction xs with
+  | nil => rfl
+  | cons x xs ih =>
+    simp only [List.length_cons, flagsAll, List.map_append, List.map_map, SeqSpec.subsequences, ← ih]
+    congr 1 <;> (apply List.map_congr_left; intro v _; simp [pickFlags])
+
+/-- **subsequences**: the `Subsequences` iterator of streams.rs enumerates exactly the Spec's
+binary-counter order, for every input -/
+theorem subsequences_eq (xs : List α) : subsequences xs = SeqSpec.subsequences xs := by
+  obtain ⟨t, ht⟩ := flagsAll_head xs.length
+  have hl := flagsAll_links xs.length
+  have := forceGo_links (fun v => (pickFlags v xs, subseqIncr v)) (flagsAll xs.length) _ t ht hl
+    (2 ^ xs.length + 1) (by rw [flagsAll_length]; omega) []
+  simp only [subsequences, this, List.nil_append]
+  exact pickFlags_flagsAll xs
+
+
+
+/-! ### cartesian power -/
+
+theorem powerGo_snoc (m : Nat) (l : List Nat) (d : Nat) :
+    powerGo m (l ++ [d]) = match powerGo m l with
+      | some w => some (w ++ [d])
+      | none => if d + 1 == m then none else some (List.replicate l.length 0 ++ [d + 1]) := by
+  induction l with
+  | nil => simp only [List.nil_append, powerGo]; split <;> simp
+  | cons x l ih =>
+    simp only [List.cons_append, powerGo, ih]
+    by_cases hx : (x + 1 == m) = true
+    · simp only [hx, if_true]
+      cases powerGo m l with
+      | some w => simp
+      | none =>
+        simp only [Option.map_none]
+        split <;> simp [List.replicate_succ]
+    · have hx' : (x + 1 == m) = false := by simpa using hx
+      simp [hx']
+
+/-- `next` seen from the front: bump the tail if it can be bumped, else bump the head and reset -/
+def consNextP (m d n : Nat) (e : Option (List Nat)) : Option (List Nat) :=
+  match e with
+  | some v' => some (d :: v')
+  | none => if d + 1 == m then none else some ((d + 1) :: List.replicate n 0)
+
+theorem powerIncr_cons (m d : Nat) (v : List Nat) :
+    powerIncr m (d :: v) = consNextP m d v.length (powerIncr m v) := by
+  simp only [powerIncr, List.reverse_cons, powerGo_snoc, consNextP]
+  cases powerGo m v.reverse with
+  | some w => simp
+  | none => simp only [Option.map_none, List.length_reverse]; split <;> simp
+
+def idxAll (m : Nat) : Nat → List (List Nat)
+  | 0 => [[]]
+  | n + 1 => (List.range m).flatMap fun d => (idxAll m n).map (d :: ·)
+
+theorem idxAll_length_mem (m n : Nat) : ∀ v ∈ idxAll m n, v.length = n := by
+  induction n with
+  | zero => simp [idxAll]
+  | succ n ih =>
+    intro v hv
+    simp only [idxAll, List.mem_flatMap, List.mem_map] at hv
+    obtain ⟨d, _, w, hw, rfl⟩ := hv
+    simp [ih w hw]
+
+theorem links_map_consP (m d n : Nat) (A : List (List Nat)) (e : Option (List Nat))
+    (hlen : ∀ v ∈ A, v.length = n) (h : Links (powerIncr m) A e) :
+    Links (powerIncr m) (A.map (d :: ·)) (consNextP m d n e) := by
+  induction A with
+  | nil => cases h
+  | cons s r ih =>
+    cases r with
+    | nil =>
+      simp only [List.map_cons, List.map_nil, Links] at h ⊢
+      rw [powerIncr_cons, hlen s (by simp), h]
+    | cons t r' =>
+      obtain ⟨h1, h2⟩ := h
+      refine ⟨?_, ih (fun v hv => hlen v (List.mem_cons_of_mem _ hv)) h2⟩
+      rw [powerIncr_cons, h1]
+      rfl
+
+/-- the blocks `d, d+1, …, m-1` (each block: all tails, prefixed with the digit) form a chain -/
+theorem blocks_links (m n : Nat) (A : List (List Nat)) (a : List Nat) (t : List (List Nat)) (hA : A = a :: t)
+    (ha : a = List.replicate n 0) (hlen : ∀ v ∈ A, v.length = n) (h : Links (powerIncr m) A none)
+    (k d : Nat) (hk : d + (k + 1) = m) :
+    Links (powerIncr m) ((List.range' d (k + 1)).flatMap fun d => A.map (d :: ·)) none
+    ∧ ∃ t', ((List.range' d (k + 1)).flatMap fun d => A.map (d :: ·)) = (d :: List.replicate n 0) :: t' := by
+  induction k generalizing d with
+  | zero =>
+    have hb := links_map_consP m d n A none hlen h
+    have hd : (d + 1 == m) = true := by simp; omega
+    simp only [consNextP, hd, if_true] at hb
+    refine ⟨by simpa [List.range'] using hb, ?_⟩
+    subst hA; subst ha
+    exact ⟨t.map (d :: ·), by simp [List.range']⟩
+  | succ k ih =>
+    obtain ⟨ih1, t', ih2⟩ := ih (d + 1) (by omega)
+    have hb := links_map_consP m d n A none hlen h
+    have hd : (d + 1 == m) = false := by simp; omega
+    simp only [consNextP, hd, Bool.false_eq_true, if_false] at hb
+    have hr : List.range' d (k + 1 + 1) = d :: List.range' (d + 1) (k + 1) := by simp [List.range'_succ]
+    rw [hr, List.flatMap_cons]
+    refine ⟨Links_append _ _ _ _ t' none ih2 hb ih1, ?_⟩
+    subst hA; subst ha
+    refine ⟨t.map (d :: ·) ++ (List.range' (d + 1) (k + 1)).flatMap
+      (fun d => (List.replicate n 0 :: t).map (d :: ·)), ?_⟩
+    simp
+
+theorem idxAll_links (m n : Nat) (hm : 0 < m) :
+    Links (powerIncr m) (idxAll m n) none ∧ ∃ t, idxAll m n = List.replicate n 0 :: t := by
+  induction n with
+  | zero => exact ⟨by simp [idxAll, Links, powerIncr, powerGo], ⟨[], rfl⟩⟩
+  | succ n ih =>
+    obtain ⟨ih1, t, ih2⟩ := ih
+    obtain ⟨k, hk⟩ : ∃ k, m = k + 1 := ⟨m - 1, by omega⟩
+    have := blocks_links m n (idxAll m n) _ t ih2 rfl (idxAll_length_mem m n) ih1 k 0 (by omega)
+    simp only [idxAll, List.range_eq_range', hk]
+    rw [← hk]
+    refine ⟨by simpa [hk] using this.1, ?_⟩
+    obtain ⟨t', ht'⟩ := this.2
+    exact ⟨t', by simpa [hk, List.replicate_succ] using ht'⟩
+
+theorem idxAll_length (m n : Nat) : (idxAll m n).length = m ^ n := by
+  induction n with
+  | zero => rfl
+  | succ n ih =>
+    simp only [idxAll, Nat.pow_succ]
+    have : ∀ ds : List Nat, (ds.flatMap fun d => (idxAll m n).map (d :: ·)).length = ds.length * m ^ n := by
+      intro ds
+      induction ds with
+      | nil => simp
+      | cons d ds ihd => simp [List.flatMap_cons, ihd, ih, Nat.succ_mul]; omega
+    rw [this, List.length_range, Nat.mul_comm]
+
+theorem flatMap_by_index (xs : List α) (f : α → List β) :
+    xs.flatMap f = (List.range xs.length).flatMap fun d => match xs[d]? with | some x => f x | none => [] := by
+  induction xs with
+  | nil => rfl
+  | cons x xs ih =>
+    simp only [List.length_cons, List.range_succ_eq_map, List.flatMap_cons, List.flatMap_map, ih]
+    simp
+
+theorem pick_idxAll (xs : List α) (n : Nat) :
+    (idxAll xs.length n).map (pick xs) = SeqSpec.power xs n := by
+  induction n with
+  | zero => rfl
+  | succ n ih =>
+    rw [power_succ, ← ih, flatMap_by_index]
+    simp only [idxAll, List.map_flatMap, List.map_map]
+    simp only [List.flatMap_def]
+    congr 1
+    apply List.map_congr_left
+    intro d hd
+    have hd' : d < xs.length := by simpa using hd
+    simp only [List.getElem?_eq_getElem hd']
+    apply List.map_congr_left
+    intro v _
+    simp [pick, List.getElem?_eq_getElem hd']
+
+/-- **xs ^^ n**: the `CartesianPower` iterator (post-fix form of F21) enumerates exactly the
+Spec's `n`-fold product in lexicographic order, for every input -/
+theorem cartesianPower_eq (xs : List α) (n : Nat) : cartesianPower xs n = SeqSpec.power xs n := by
+  by_cases hx : xs = []
+  · subst hx
+    cases n with
+    | zero => simp [cartesianPower, forceGo, pick, SeqSpec.power, SeqSpec.product, powerIncr, powerGo]
+    | succ n => simp [cartesianPower, forceGo, power_succ]
+  · have hm : 0 < xs.length := List.length_pos_iff.mpr hx
+    have hemp : xs.isEmpty = false := by cases xs <;> simp_all
+    obtain ⟨hl, t, ht⟩ := idxAll_links xs.length n hm
+    have := forceGo_links (fun v => (pick xs v, powerIncr xs.length v)) (idxAll xs.length n) _ t ht hl
+      (xs.length ^ n + 1) (by rw [idxAll_length]; omega) []
+    simp only [cartesianPower, hemp, Bool.false_and, Bool.false_eq_true, if_false, this, List.nil_append]
+    exact pick_idxAll xs n
+
+
+/-! ### combinations -/
+
+theorem combGo_snoc (last : Nat) (l : List Nat) (a : Nat) :
+    combGo last (l ++ [a]) = match combGo last l with
+      | some (d, ds) => some (d, ds ++ [a])
+      | none => if a + 1 < last - l.length then some (a + 1, []) else none := by
+  induction l generalizing last with
+  | nil => simp [combGo]
+  | cons x l ih =>
+    simp only [List.cons_append, combGo, ih, List.length_cons]
+    by_cases hx : x + 1 < last
+    · simp [hx]
+    · simp only [hx, if_false]
+      have : last - 1 - l.length = last - (l.length + 1) := by omega
+      rw [this]
+
+/-- `next` seen from the front -/
+def consNextC (n a len : Nat) (e : Option (List Nat)) : Option (List Nat) :=
+  match e with
+  | some v' => some (a :: v')
+  | none => if a + 1 + len < n then some (List.range' (a + 1) (len + 1)) else none
+
+theorem combIncr_cons (n a : Nat) (v : List Nat) :
+    combIncr n (a :: v) = consNextC n a v.length (combIncr n v) := by
+  simp only [combIncr, List.reverse_cons, combGo_snoc, consNextC]
+  cases h : combGo n v.reverse with
+  | some p =>
+    obtain ⟨d, ds⟩ := p
+    simp only [List.reverse_append, List.reverse_cons, List.reverse_nil, List.nil_append, List.length_cons,
+      List.length_append, List.length_reverse, List.length_singleton, List.singleton_append, List.cons_append,
+      List.length_nil]
+    have : v.length + 1 - (ds.length + 1) - 1 = v.length - ds.length - 1 := by omega
+    rw [this]
+  | none =>
+    simp only [List.length_reverse]
+    by_cases hc : a + 1 < n - v.length
+    · have hc' : a + 1 + v.length < n := by omega
+      simp only [hc, hc', if_true, List.reverse_nil, List.nil_append, List.length_nil, List.length_cons,
+        Nat.sub_zero, Nat.add_sub_cancel, List.singleton_append, List.range'_succ]
+      try (congr 2
+           rw [List.range'_eq_map_range]
+           try (apply List.map_congr_left; intro j _; omega))
+    · have hc' : ¬ (a + 1 + v.length < n) := by omega
+      simp [hc, hc']
+
+theorem combinations_len_mem (xs : List α) (k : Nat) : ∀ l ∈ SeqSpec.combinations xs k, l.length = k :=
+  fun l hl => ((combinations_mem xs k l).mp hl).2
+
+theorem combinations_short (xs : List α) (k : Nat) (h : xs.length < k) : SeqSpec.combinations xs k = [] := by
+  induction xs generalizing k with
+  | nil => cases k with
+    | zero => simp at h
+    | succ k => rfl
+  | cons x xs ih =>
+    cases k with
+    | zero => simp at h
+    | succ k =>
+      simp only [SeqSpec.combinations, ih k (by simp at h; omega), ih (k + 1) (by simp at h; omega)]
+      rfl
+
+theorem links_map_consC (n a k : Nat) (A : List (List Nat)) (e : Option (List Nat))
+    (hlen : ∀ v ∈ A, v.length = k) (h : Links (combIncr n) A e) :
+    Links (combIncr n) (A.map (a :: ·)) (consNextC n a k e) := by
+  induction A with
+  | nil => cases h
+  | cons s r ih =>
+    cases r with
+    | nil =>
+      simp only [List.map_cons, List.map_nil, Links] at h ⊢
+      rw [combIncr_cons, hlen s (by simp), h]
+    | cons t r' =>
+      obtain ⟨h1, h2⟩ := h
+      refine ⟨?_, ih (fun v hv => hlen v (List.mem_cons_of_mem _ hv)) h2⟩
+      rw [combIncr_cons, h1]
+      rfl
+
+/-- the index combinations over `lo, lo+1, …, n-1` form a chain starting at `lo, …, lo+k-1` -/
+theorem combIdx_links (n m : Nat) : ∀ (lo k : Nat), lo + m = n → k ≤ m →
+    Links (combIncr n) (SeqSpec.combinations (List.range' lo m) k) none
+    ∧ ∃ t, SeqSpec.combinations (List.range' lo m) k = List.range' lo k :: t := by
+  induction m with
+  | zero =>
+    intro lo k _ hk
+    have : k = 0 := by omega
+    subst this
+    exact ⟨by simp [SeqSpec.combinations, Links, combIncr, combGo], ⟨[], rfl⟩⟩
+  | succ m ih =>
+    intro lo k hn hk
+    cases k with
+    | zero => exact ⟨by simp [SeqSpec.combinations, Links, combIncr, combGo], ⟨[], by simp [SeqSpec.combinations]⟩⟩
+    | succ k =>
+      simp only [List.range'_succ, SeqSpec.combinations]
+      obtain ⟨l1, t1, h1⟩ := ih (lo + 1) k (by omega) (by omega)
+      have hb := links_map_consC n lo k _ none (combinations_len_mem _ k) l1
+      simp only [consNextC] at hb
+      by_cases hkm : k + 1 ≤ m
+      · obtain ⟨l2, t2, h2⟩ := ih (lo + 1) (k + 1) (by omega) hkm
+        have hc : lo + 1 + k < n := by omega
+        simp only [hc, if_true] at hb
+        refine ⟨Links_append _ _ _ _ t2 none h2 hb l2, ?_⟩
+        rw [h1]
+        exact ⟨t1.map (lo :: ·) ++ SeqSpec.combinations (List.range' (lo + 1) m) (k + 1), by simp [List.range'_succ]⟩
+      · have hshort : SeqSpec.combinations (List.range' (lo + 1) m) (k + 1) = [] :=
+          combinations_short _ _ (by simp; omega)
+        have hc : ¬ (lo + 1 + k < n) := by omega
+        simp only [hc, if_false] at hb
+        rw [hshort, List.append_nil]
+        refine ⟨hb, ?_⟩
+        rw [h1]
+        exact ⟨t1.map (lo :: ·), by simp [List.range'_succ]⟩
+
+theorem combinations_map (f : α → β) (xs : List α) (k : Nat) :
+    SeqSpec.combinations (xs.map f) k = (SeqSpec.combinations xs k).map (List.map f) := by
+  induction xs generalizing k with
+  | nil => cases k <;> rfl
+  | cons x xs ih =>
+    cases k with
+    | zero => rfl
+    | succ k => simp [SeqSpec.combinations, ih, List.map_map, Function.comp_def]
+
+theorem combinations_length_le (xs : List α) (k : Nat) : (SeqSpec.combinations xs k).length ≤ 2 ^ xs.length := by
+  induction xs generalizing k with
+  | nil => cases k <;> simp [SeqSpec.combinations]
+  | cons x xs ih =>
+    cases k with
+    | zero => simp [SeqSpec.combinations]; exact Nat.one_le_two_pow
+    | succ k =>
+      simp only [SeqSpec.combinations, List.length_append, List.length_map, List.length_cons, Nat.pow_succ]
+      have := ih k; have := ih (k + 1); omega
+
+theorem map_getElem_range (xs : List α) : (List.range xs.length).filterMap (xs[·]?) = xs := by
+  induction xs with
+  | nil => rfl
+  | cons x xs ih =>
+    simp only [List.length_cons, List.range_succ_eq_map, List.filterMap_cons, List.getElem?_cons_zero,
+      List.filterMap_map]
+    have : ((fun i => (x :: xs)[i]?) ∘ Nat.succ) = fun i => xs[i]? := by funext i; simp
+    rw [this, ih]
+
+theorem combinations_filterMap (f : β → Option α) (ys : List β) (k : Nat) (hf : ∀ y ∈ ys, (f y).isSome) :
+    SeqSpec.combinations (ys.filterMap f) k = (SeqSpec.combinations ys k).map (List.filterMap f) := by
+  induction ys generalizing k with
+  | nil => cases k <;> rfl
+  | cons y ys ih =>
+    have hy := hf y (by simp)
+    obtain ⟨a, ha⟩ := Option.isSome_iff_exists.mp hy
+    have hrest : ∀ y ∈ ys, (f y).isSome := fun z hz => hf z (List.mem_cons_of_mem _ hz)
+    cases k with
+    | zero => simp [SeqSpec.combinations]
+    | succ k =>
+      simp only [List.filterMap_cons, ha, SeqSpec.combinations, ih _ hrest, List.map_append, List.map_map]
+      congr 1
+      apply List.map_congr_left
+      intro l _
+      simp [ha]
+
+/-- **combinations**: the `Combinations` iterator of streams.rs enumerates exactly the Spec's
+`k`-element sublists in lexicographic index order, for every input and every `k` -/
+theorem combinations_eq (xs : List α) (k : Nat) : combinations xs k = SeqSpec.combinations xs k := by
+  by_cases hk : k > xs.length
+  · simp [combinations, hk, combinations_short xs k hk]
+  · have hk' : k ≤ xs.length := by omega
+    obtain ⟨hl, t, ht⟩ := combIdx_links xs.length xs.length 0 k (by omega) hk'
+    have hr : List.range' 0 k = List.range k := (List.range_eq_range').symm
+    rw [hr] at ht
+    have := forceGo_links (fun v => (pick xs v, combIncr xs.length v))
+      (SeqSpec.combinations (List.range' 0 xs.length) k) _ t ht hl
+      (2 ^ xs.length + 1) (by have := combinations_length_le (List.range' 0 xs.length) k; simp at this; omega) []
+    simp only [combinations, hk, if_false, this, List.nil_append]
+    have hx : xs = (List.range' 0 xs.length).filterMap (xs[·]?) := by
+      rw [← List.range_eq_range']; exact (map_getElem_range xs).symm
+    conv => rhs; rw [hx]
+    rw [combinations_filterMap]
+    · rfl
+    · intro i hi
+      simp only [List.mem_range'_1] at hi
+      have hi' : i < xs.length := by omega
+      simp [List.getElem?_eq_getElem hi']
+
+
+theorem lib_power : implLib.power = specLib.power := by funext xs n; exact cartesianPower_eq xs n
+theorem lib_subsequences : implLib.subsequences = specLib.subsequences := by
+  funext xs; exact subsequences_eq xs
+theorem lib_combinations : implLib.combinations = specLib.combinations := by
+  funext xs k; exact combinations_eq xs k
+
+/-! ## the concrete value equality is a partial equivalence
+(so the `unique` theorems apply to the values of the differential run; it is not reflexive:
+streams are never equal, as in `Seq::eq`) -/
+
+theorem val_beq_symm : (∀ a b : Val, Val.beq a b = Val.beq b a) ∧ (∀ a b : List Val, Val.beqList a b = Val.beqList b a) := by
+  apply Val.beq.mutual_induct (motive_1 := fun a b => Val.beq a b = Val.beq b a)
+    (motive_2 := fun a b => Val.beqList a b = Val.beqList b a)
+  · rfl
+  · intro a b; simp only [Val.beq]; exact Bool.eq_iff_iff.mpr ⟨fun h => by simpa using (by simpa using h : a = b).symm, fun h => by simpa using (by simpa using h : b = a).symm⟩
+  · intro a b; simp only [Val.beq]; exact Bool.eq_iff_iff.mpr ⟨fun h => by simpa using (by simpa using h : a = b).symm, fun h => by simpa using (by simpa using h : b = a).symm⟩
+  · intro a b h; simpa only [Val.beq] using h
+  · intro a b; simp only [Val.beq]; exact Bool.eq_iff_iff.mpr ⟨fun h => by simpa using (by simpa using h : a = b).symm, fun h => by simpa using (by simpa using h : b = a).symm⟩
+  · intro a b; simp only [Val.beq]; exact Bool.eq_iff_iff.mpr ⟨fun h => by simpa using (by simpa using h : a = b).symm, fun h => by simpa using (by simpa using h : b = a).symm⟩
+  · intro a b h; simpa only [Val.beq] using h
+  · intro t x h1 h2 h3 h4 h5 h6 h7
+    cases t <;> cases x <;> first
+      | rfl
+      | exact absurd rfl (fun _ => h1 rfl rfl)
+      | exact (h2 _ _ rfl rfl).elim
+      | exact (h3 _ _ rfl rfl).elim
+      | exact (h4 _ _ rfl rfl).elim
+      | exact (h5 _ _ rfl rfl).elim
+      | exact (h6 _ _ rfl rfl).elim
+      | exact (h7 _ _ rfl rfl).elim
+  · rfl
+  · intro x xs y ys h1 h2; simp only [Val.beqList, h1, h2]
+  · intro t x h1 h2
+    cases t <;> cases x <;> first
+      | rfl
+      | exact (h1 rfl rfl).elim
+      | exact (h2 _ _ _ _ rfl rfl).elim
+
+theorem val_beq_trans :
+    (∀ a b : Val, ∀ c, Val.beq a b = true → Val.beq b c = true → Val.beq a c = true)
+    ∧ (∀ a b : List Val, ∀ c, Val.beqList a b = true → Val.beqList b c = true → Val.beqList a c = true) := by
+  apply Val.beq.mutual_induct
+    (motive_1 := fun a b => ∀ c, Val.beq a b = true → Val.beq b c = true → Val.beq a c = true)
+    (motive_2 := fun a b => ∀ c, Val.beqList a b = true → Val.beqList b c = true → Val.beqList a c = true)
+  · intro c _ h; exact h
+  · intro a b c h1 h2
+    have : a = b := by simpa [Val.beq] using h1
+    subst this; exact h2
+  · intro a b c h1 h2
+    have : a = b := by simpa [Val.beq] using h1
+    subst this; exact h2
+  · intro a b ih c h1 h2
+    cases c <;> simp only [Val.beq] at h1 h2 ⊢ <;> first | exact ih _ h1 h2 | cases h2
+  · intro a b c h1 h2
+    have : a = b := by simpa [Val.beq] using h1
+    subst this; exact h2
+  · intro a b c h1 h2
+    have : a = b := by simpa [Val.beq] using h1
+    subst this; exact h2
+  · intro a b ih c h1 h2
+    cases c <;> simp only [Val.beq] at h1 h2 ⊢ <;> first | exact ih _ h1 h2 | cases h2
+  · intro t x h1 h2 h3 h4 h5 h6 h7 c hb _
+    exfalso
+    cases t <;> cases x <;> first
+      | exact h1 rfl rfl
+      | exact h2 _ _ rfl rfl
+      | exact h3 _ _ rfl rfl
+      | exact h4 _ _ rfl rfl
+      | exact h5 _ _ rfl rfl
+      | exact h6 _ _ rfl rfl
+      | exact h7 _ _ rfl rfl
+      | (simp only [Val.beq] at hb; cases hb)
+  · intro c _ h; exact h
+  · intro x xs y ys ih1 ih2 c h1 h2
+    cases c with
+    | nil => simp only [Val.beqList] at h2; cases h2
+    | cons z zs =>
+      simp only [Val.beqList, Bool.and_eq_true] at h1 h2 ⊢
+      exact ⟨ih1 z h1.1 h2.1, ih2 zs h1.2 h2.2⟩
+  · intro t x h1 h2 c hb _
+    exfalso
+    cases t <;> cases x <;> first
+      | exact h1 rfl rfl
+      | exact h2 _ _ _ _ rfl rfl
+      | (simp only [Val.beqList] at hb; cases hb)
+
+instance : PartialEquivBEq Val where
+  symm := by
+    intro a b h
+    have : Val.beq a b = true := h
+    show Val.beq b a = true
+    rw [← val_beq_symm.1 a b]; exact this
+  trans := by
+    intro a b c h1 h2
+    exact val_beq_trans.1 a b c h1 h2
+
+/-- `unique` on the values of the differential run: the Rust loop returns the first occurrences -/
+theorem unique_val (xs : List Val) : implLib.unique xs = specLib.unique xs :=
+  uniqued_eq (fun x => x) xs
+
+
+theorem lib_unique : implLib.unique = specLib.unique := by funext xs; exact unique_val xs
+theorem call_unique (s : Val) : call implLib "unique" [.v s] = call specLib "unique" [.v s] := by
+  show multi s implLib.unique = multi s specLib.unique
+  rw [lib_unique]
 
 end Noulith.C13
